@@ -77,10 +77,10 @@ theorem inv_pObj (c : Ctx) (hre : c.cfg.re = none) (S : Bool) (kp : List Str) (k
 
 theorem provAt_sub (T : Tables) (kp : List Str) (m : MTable) (sk : Str) (h : ProvAt T kp (some (.map m))) :
     ProvAt T (kp ++ [sk]) (lookup sk m) := by
-  obtain ⟨tb, pre, hr, hs⟩ := h
+  obtain ⟨tb, pre, hr, hs, hsub⟩ := h
   cases hl : lookup sk m with
   | none => trivial
-  | some x => exact provAt_lookup T tb pre m sk _ hr (List.Sublist.append hs (List.Sublist.refl _)) x hl
+  | some x => exact provAt_lookup T tb pre m sk _ hr hsub (List.Sublist.append hs (List.Sublist.refl _)) x hl
 
 theorem inv_qObj (c : Ctx) (S : Bool) (pc : Option Meta) (kp : List Str) (hpc : ProvAt c.T kp pc) (k : Str) (x : J) :
     Inv c (c.qObj S pc kp k x).2 := by
@@ -91,7 +91,7 @@ theorem inv_qObj (c : Ctx) (S : Bool) (pc : Option Meta) (kp : List Str) (hpc : 
     exact provAt_sub c.T kp pm k hpc
   · cases hl : lookup k c.T.core with
     | none => trivial
-    | some m => exact provAt_lookup c.T .core [] c.T.core k _ (reach_top c.T .core) (by simp) m hl
+    | some m => exact provAt_lookup c.T .core [] c.T.core k _ (reach_top c.T .core) (.refl _) (by simp) m hl
 
 theorem provAt_qParent (T : Tables) (kp : List Str) (co : Option Meta) (h : ProvAt T kp co) : ProvAt T kp (qParent co) := by
   unfold qParent; split <;> first | trivial | exact h
